@@ -122,8 +122,11 @@ def _prune(keep=10):
         ents = [os.path.join(CACHE, d) for d in os.listdir(CACHE)]
         ents = [e for e in ents if os.path.isdir(e)]
         ents.sort(key=lambda e: os.path.getmtime(e), reverse=True)
+        now = time.time()
         for e in ents[keep:]:
-            shutil.rmtree(e, ignore_errors=True)
+            # an entry touched in the last half hour may be in use by a concurrent check of another tree
+            if now - os.path.getmtime(e) > 1800:
+                shutil.rmtree(e, ignore_errors=True)
     except OSError:
         pass
 
